@@ -49,23 +49,23 @@ fn solve(mut a: Vec<Vec<F>>, mut w: Vec<F>) -> Option<Vec<F>> {
     Some(w)
 }
 
-struct Ctxt<'a, S: Scheme> {
-    ck: &'a CkOf<S>,
-    cm: MLinCommitment,
-    st: MLinState<F>,
-    tree: MerkleTree<MtParams>,
-    z: PtOf<S>,
-    pre: Vec<u8>,
+pub struct Ctxt<'a, S: Scheme> {
+    pub ck: &'a CkOf<S>,
+    pub cm: MLinCommitment,
+    pub st: MLinState<F>,
+    pub tree: MerkleTree<MtParams>,
+    pub z: PtOf<S>,
+    pub pre: Vec<u8>,
 }
 
-fn tree_of(leaves: &[Vec<u8>]) -> MerkleTree<MtParams> {
+pub fn tree_of(leaves: &[Vec<u8>]) -> MerkleTree<MtParams> {
     let mut l = leaves.to_vec();
     l.resize(l.len().next_power_of_two(), Vec::new());
     MerkleTree::<MtParams>::new(&(), &(), l).expect("merkle tree")
 }
 
 /// Simulate the verifier's transcript for (root, optional wf, point, v) and return (r, indices).
-fn transcript<S, L>(c: &Ctxt<S>, wf: Option<&Vec<F>>, v: &Vec<F>, want_r_only: bool) -> (Option<Vec<F>>, Vec<usize>)
+pub fn transcript<S, L>(c: &Ctxt<S>, wf: Option<&Vec<F>>, v: &Vec<F>, want_r_only: bool) -> (Option<Vec<F>>, Vec<usize>)
 where
     S: Scheme<F = F>,
     L: LinearEncode<F, MtParams, POf<S>, ColHasher<F>, LinCodePCParams = CkOf<S>>,
@@ -102,7 +102,7 @@ where
     (r, idx)
 }
 
-fn cols_paths(st: &MLinState<F>, tree: &MerkleTree<MtParams>, idx: &[usize]) -> (Vec<Vec<F>>, Vec<ark_crypto_primitives::merkle_tree::Path<MtParams>>) {
+pub fn cols_paths(st: &MLinState<F>, tree: &MerkleTree<MtParams>, idx: &[usize]) -> (Vec<Vec<F>>, Vec<ark_crypto_primitives::merkle_tree::Path<MtParams>>) {
     let cols: Vec<Vec<F>> = idx.iter().map(|&j| st.ext_mat.entries.iter().map(|row| row[j]).collect()).collect();
     let paths = idx.iter().map(|&j| tree.generate_proof(j).expect("path")).collect();
     (cols, paths)
@@ -203,6 +203,19 @@ where
         let (cols, paths) = cols_paths(&c.st, &c.tree, &idx);
         let pf = to_proof::<S>(MLinProof { opening: MProofSingle { paths, v, columns: cols }, well_formedness: wf_honest.clone() });
         judge(ctx, "opening-vector-altered", claim, pf, json!({"position": i}));
+    }
+    // (1b) errors in the opening vector and in the well-formedness vector that cancel in the SUM of the two column
+    //      tests (the challenge r is known before either vector is sent); columns and paths honest for the positions
+    //      the altered transcript selects
+    if let Some(wf) = &wf_honest {
+        let delta: Vec<F> = (0..v_honest.len()).map(|_| F::rand(rng)).collect();
+        let v: Vec<F> = v_honest.iter().zip(&delta).map(|(x, d)| *x + d).collect();
+        let wf2: Vec<F> = wf.iter().zip(&delta).map(|(x, d)| *x - d).collect();
+        let claim = crate::oracle::inner(&v, &a);
+        let (_, idx) = transcript::<S, L>(&c, Some(&wf2), &v, false);
+        let (cols, paths) = cols_paths(&c.st, &c.tree, &idx);
+        let pf = to_proof::<S>(MLinProof { opening: MProofSingle { paths, v, columns: cols }, well_formedness: Some(wf2) });
+        judge(ctx, "opening-and-well-formedness-vectors-cancelling", claim, pf, json!({}));
     }
     // (2) proof consistent with another polynomial's matrix, against commitment(p): columns of q with q's paths,
     //     and columns of q with p's (honest) paths
